@@ -305,14 +305,18 @@ let c16_msub id shard thr steps =
     | ["E"; b] -> st := M.enable_notifications !st (b = "1"); "ok"
     | ["T"; p] -> let p = bytes_of_hex p in tact (M.TAdd (p, highest p)); "ok"
     | ["K"; n] -> tact (M.TClose (nat_of_int (int_of_string n))); "ok"
-    | ["Q"; p; ds] ->
+    | "Q" :: p :: ds :: [] | "QO" :: p :: ds :: _ :: [] ->
       let p = bytes_of_hex p in
       let put = { M.p_key = p; M.p_value = bytes_of_hex "76"; M.p_expected = None; M.p_session = None; M.p_identity = None;
                   M.p_partition = Some (bytes_of_hex "706b"); M.p_deltas = List.map n_of_string (String.split_on_char '+' ds); M.p_indexes = [] } in
-      (match write { M.w_puts = [put]; M.w_dels = []; M.w_ranges = [] } with
+      let pre = (match String.split_on_char ':' step with
+        | ["QO"; _; _; k] -> [{ M.p_key = bytes_of_hex k; M.p_value = bytes_of_hex "6f"; M.p_expected = None; M.p_session = None; M.p_identity = None;
+                                M.p_partition = None; M.p_deltas = []; M.p_indexes = [] }]
+        | _ -> []) in
+      (match write { M.w_puts = pre @ [put]; M.w_dels = []; M.w_ranges = [] } with
        | M.Err _ -> "err"
-       | M.Ok resp -> (match resp.M.wr_puts with
-           | [r] -> (match r.M.pr_key with Some k -> tact (M.TUpdate (p, k)); hex_of_bytes k | None -> status_s r.M.pr_status)
+       | M.Ok resp -> (match List.rev resp.M.wr_puts with
+           | r :: _ -> (match r.M.pr_key with Some k -> tact (M.TUpdate (p, k)); hex_of_bytes k | None -> status_s r.M.pr_status)
            | _ -> "?"))
     | ["X"; k] -> ignore (write { M.w_puts = []; M.w_dels = [{ M.d_key = bytes_of_hex k; M.d_expected = None }]; M.w_ranges = [] }); "ok"
     | ["R"; n] ->
